@@ -42,7 +42,9 @@ RULE = ("one call of sound_event_detection per case and exact unit: an anchor cl
         "has both annotated and predicted events")
 TRUSTED_BASE = ["checks/c08.py (build recording / clips / sound events / tags, call sound_event_detection, map the uuids in "
                 "the result back to list positions, encode doubles)"]
-ASSUMPTIONS = ["'extra' universe: regions with an interior ring (MultiPolygon and Polygon) against boxes strictly inside / touching / "
+ASSUMPTIONS = ["touching TimeIntervals (deci cases) are also run at the decimal units 0.1 s and 0.7 s (real doubles): an expected affinity or "
+               "score of 0 is demanded exactly; other values on those units within 2.4e-10",
+               "'extra' universe: regions with an interior ring (MultiPolygon and Polygon) against boxes strictly inside / touching / "
                "across the hole (a geometry strictly inside a hole does not overlap the region), and vocabularies / annotation tags / "
                "predicted tags over different terms that share a label or a name with equal values (a tag is a (term, value) pair)",
                "every generated run contains an anchor clip with one labelled annotation and the vocabulary has >= 2 tags: "
@@ -132,7 +134,7 @@ def _build(case, tu, geom_of):
 def _run(case, tu, geom_of):
     cp, ca, tags, geoms = _build(case, tu, geom_of)
     clip_id = {_uid(1, c["id"]): c["id"] for c in case["clips"]}
-    out = {"raised": "", "cs": int(100 * tu), "clips": [], "score": _V(0.0), "aff": []}
+    out = {"raised": "", "cs": int(round(100 * tu)), "clips": [], "score": _V(0.0), "aff": []}
     with warnings.catch_warnings():
         warnings.simplefilter("ignore")
         for c in case["clips"]:
@@ -161,7 +163,8 @@ def _lat_geom(cid, side, k, e, tu):
 
 def execute(case):
     if case["kind"] == "lat":
-        return {"runs": [_run(case, tu, _lat_geom) for tu in UNITS]}
+        units = UNITS + ([0.1, 0.7] if case.get("deci") else [])     # a decimal grid: times such as 0.3, 0.7 as real doubles
+        return {"runs": [_run(case, tu, _lat_geom) for tu in units]}
     rng = random.Random(case["seed"])
     cache = {}
 
